@@ -13,3 +13,4 @@ import SkoolVerif.Props.C04
 import SkoolVerif.Props.C03
 import SkoolVerif.Props.C08
 import SkoolVerif.Gen.CDispatch
+import SkoolVerif.Props.C15
